@@ -291,10 +291,19 @@ def explore_block(lines):
 
 
 def run(ctx):
+    import time
+    t0, timing = [time.time()], {}
+
+    def tick(name):
+        timing[name] = round(time.time() - t0[0], 1)
+        t0[0] = time.time()
+    ctx.coverage["timing_s"] = timing
     exe = vlib.build_harness()
     sw = engine.current_switches()
     ctx.coverage["generated_tables"] = sw
+    tick("build")
     pr = ctx.proof("theories/Props/C17.v")
+    tick("proof")
     nprog = 12 if ctx.quick() else 80
     progs = hist.programs(ctx, nprog)
     # LIST programs (see the module docstring): a random stream of its own; the first few generated ones also go
@@ -357,6 +366,7 @@ def run(ctx):
                                   script=st + ops[:k] + gv + [["PATH", target, True]] + gv + [["STACKINFO"]]))
                 meta[cid] = dict(kind="jump", prog=p, ng=len(gv))
     res = {r["id"]: r for r in vlib.run_inkdrive(cases, exe)}
+    tick("explored_lockstep")
     fails, n_checked = [], 0
     for cid, m in meta.items():
         r = res.get(cid)
@@ -428,6 +438,7 @@ def run(ctx):
     n_checked += fchecked
     ctx.coverage["reset_after_reported_fault"] = dict(programs=len(fprogs), cases=len(fcases), compared=fchecked,
                                                       with_fault_before_reset=ffaulted)
+    tick("reported_faults")
     # LIST programs: history (+ jump), RESET, second play  vs  fresh, second play
     lcases, lmeta = list_cases(lsub, exe, lprogs, ctx.quick())
     lres = {r["id"]: r for r in vlib.run_inkdrive(lcases, exe)}
@@ -446,6 +457,7 @@ def run(ctx):
         except Exception as e:
             f["engine_model"] = dict(status="not-run", error=str(e)[:200])
     fails += lfails
+    tick("list_programs")
     sample = [c for c in cases if meta[c["id"]]["kind"] in ("reset", "resetjump")]
     ctx.rng.shuffle(sample)
     sample = sample[: (60 if ctx.quick() else 600)]
@@ -454,10 +466,11 @@ def run(ctx):
     lsample = [c for c in lcases if lmeta[c["id"]]["kind"] == "reset" and "|reset|jump:" in c["id"]]
     lsub.rng.shuffle(lsample)
     lsample = [c for c in lsample if not lmeta[c["id"]]["generated"]][:4] + \
-              [c for c in lsample if lmeta[c["id"]]["generated"]][: (24 if ctx.quick() else 300)]
+              [c for c in lsample if lmeta[c["id"]]["generated"]][: (16 if ctx.quick() else 300)]
     mcases += [strip_save(dict(c, id="m:" + c["id"])) for c in lsample]
     cres = engine.compare(mcases, exe, sw, shard=6 if ctx.quick() else 40)
     ctx.coverage["list_programs"]["scripts_run_through_engine_model"] = len(lsample)
+    tick("engine_model")
     mism = [r for r in cres if r["status"] in ("mismatch", "model-error")]
     agree = sum(1 for r in cres if r["status"] == "agree")
     ctx.coverage.update(dict(
